@@ -924,7 +924,7 @@ func compactPlan(p *Plan) *Plan {
 			if op.C >= 0 {
 				used[op.C] = true
 			}
-			if op.D >= 0 {
+			if op.D >= 0 && op.K != kExtra {
 				used[op.D] = true
 			}
 		}
@@ -951,7 +951,7 @@ func compactPlan(p *Plan) *Plan {
 			if op.C >= 0 {
 				op.C = cellMap[op.C]
 			}
-			if op.D >= 0 {
+			if op.D >= 0 && op.K != kExtra {
 				op.D = cellMap[op.D]
 			}
 		}
